@@ -35,6 +35,15 @@ def run(ctx):
     ctx.guarded("R06.1", "paths", lambda: paths(ctx))
     ctx.guarded("R06.6", "pending_write", lambda: pending(ctx))
     ctx.guarded("R06.7", "fifo", lambda: fifo(ctx, "R06.7", "response_queue", {"push_back", "pop_front", "clear"}))
+    ctx.rule("R06.8", "discarding pending output really discards it: clear_write_buffer empties the queue and sets the unsent buffer to None (= C09 R09.4)")
+    ctx.rule("R06.9", "one try_write per readiness notification: a second write on a full non-blocking socket reports EAGAIN and a healthy connection loses its output (= C08 R08.4)")
+
+    def shared():
+        from . import c09
+        c09.clear_write_buffer_rule(ctx, "R06.8")
+        c09.single_io(ctx, "R06.9")
+
+    ctx.guarded("R06.8", "shared", shared)
 
 
 def direct_subterms(t):
